@@ -53,3 +53,15 @@ Theorem C14_credential_identifier_injective :
   forall cred cred', cred ++ Generated.STR_OPRF_KEY = cred' ++ Generated.STR_OPRF_KEY -> cred = cred'.
 Proof. exact oprf_key_info_injective. Qed.
 Print Assumptions C14_credential_identifier_injective.
+
+
+(* keyed per credential: two different credential identifiers under one seed get the same OPRF key only if
+   HKDF-Expand collides on the two infos or the OPRF's DeriveKeyPair collides on two seeds (witnesses exhibited) *)
+From OKE Require Import Bad KeySeparation.
+Theorem C14_credential_identifiers_separate_keys :
+  forall E Sc Pk Sk (CS : Suite E Sc Pk Sk), GroupLaws CS ->
+  forall seed cred cred' k,
+    oprf_key CS seed cred = Ok k -> oprf_key CS seed cred' = Ok k -> cred <> cred' ->
+    BadS CS \/ BadOprfDerive CS.
+Proof. exact @credential_identifiers_separate_keys. Qed.
+Print Assumptions C14_credential_identifiers_separate_keys.
